@@ -57,16 +57,18 @@ def dec_plain_toks(s):
 def replay_records(records, ncls):
     """records: dicts owner, params, action, old (wire toks), new (wire toks), rule.
     returns (n_modelled, n_unmodelled_by_owner, mismatches)"""
-    drv = Driver("bfix")
-    for r in records:
-        drv.send("%s\t%s\t%s\t%s" % (r["owner"], enc_kv(r["params"]), enc_kv(r["action"]), enc_plain_toks(r["old"], ncls)))
-    drv.flush()
-    drv.p.stdin.close()
+    import subprocess
+
+    from leanio import DRIVER
+
+    payload = "".join("%s\t%s\t%s\t%s\n" % (r["owner"], enc_kv(r["params"]), enc_kv(r["action"]), enc_plain_toks(r["old"], ncls)) for r in records)
+    p = subprocess.run([DRIVER, "bfix"], input=payload, stdout=subprocess.PIPE, text=True, encoding="utf-8")
+    replies = p.stdout.split("\n")
     modelled = 0
     unmodelled = {}
     mism = []
-    for r in records:
-        line = drv.p.stdout.readline().rstrip("\n")
+    for k, r in enumerate(records):
+        line = replies[k] if k < len(replies) else "error no reply"
         if line == "unmodelled":
             unmodelled[r["owner"]] = unmodelled.get(r["owner"], 0) + 1
             continue
@@ -78,5 +80,4 @@ def replay_records(records, ncls):
                 mism.append({"owner": r["owner"], "rule": r["rule"], "action": r["action"], "old": [(t[1], t[2]) for t in r["old"]][:40], "real_new": real_new[:40], "lean_new": got[:40]})
         else:
             mism.append({"owner": r["owner"], "rule": r["rule"], "action": r["action"], "old": [(t[1], t[2]) for t in r["old"]][:40], "real_new": real_new[:40], "lean": line})
-    drv.p.wait()
     return modelled, unmodelled, mism
